@@ -25,7 +25,8 @@ Record script := {
   s_out : out_mode;
   s_payload : N;            (* first line of the output *)
   s_cat : bool;             (* output also contains the contents of s_deps, in order *)
-  s_exit : Z                (* exit status after producing the output *)
+  s_exit : Z;               (* exit status after producing the output *)
+  s_tol : bool              (* the script goes on when its redo-ifchange fails ("redo-ifchange ... || true") *)
 }.
 
 Record file := { f_data : list N; f_script : option script; f_mt : N }.
@@ -354,7 +355,7 @@ Fixpoint find_do_file (w : world) (d : db) (t : fid) (cands : list dofile)
           (add_dep d1 t DModified s,
            Some (c, match f_script f with Some sc => sc
                     | None => {| s_deps := []; s_ifcreate := []; s_always := false; s_stamp := false;
-                                 s_out := ONeither; s_payload := 0; s_cat := false; s_exit := 0%Z |} end))
+                                 s_out := ONeither; s_payload := 0; s_cat := false; s_exit := 0%Z; s_tol := false |} end))
       | None =>
           let '(d1, s) := from_name d dn in
           find_do_file w (add_dep d1 t DCreated s) t cs
@@ -399,7 +400,7 @@ Definition rec_t := env -> mode -> list name -> world -> res (world * list event
 
 Definition default_script : script :=
   {| s_deps := []; s_ifcreate := []; s_always := false; s_stamp := false;
-     s_out := ONeither; s_payload := 0; s_cat := false; s_exit := 0%Z |}.
+     s_out := ONeither; s_payload := 0; s_cat := false; s_exit := 0%Z; s_tol := false |}.
 
 (* redo-ifcreate n1 n2 ...: one transaction; fails (status 1, nothing
    recorded) if any of the names exists *)
@@ -448,7 +449,7 @@ Definition script_body (rec : rec_t) (env_child : env) (t : name) (sc : script) 
   match r_deps with
   | EFuel => EFuel
   | Ret (w, evs, rc_deps) =>
-      if negb (Z.eqb rc_deps 0) then Ret (w, evs, rc_deps, None) else
+      if negb (Z.eqb rc_deps 0) && negb (s_tol sc) then Ret (w, evs, rc_deps, None) else
       let '(w, rc_ifc) := ifcreate_cmd t (s_ifcreate sc) w in
       if negb (Z.eqb rc_ifc 0) then Ret (w, evs, rc_ifc, None) else
       let w := if s_always sc then always_cmd (e_runid env_child) t w else w in
